@@ -1054,6 +1054,8 @@ class Session:
                     if got != set(bad):
                         self.viol("C33.wrong-subset", {"C33"}, i, rep, "invalid_subset holds %s, expected exactly %s" % (sorted(got, key=str), sorted(bad, key=str)))
             return {"op": "abort", "outcome": "ok"}
+        if kind in ("reuse", "reuse-hier"):
+            return self.abort_reuse(rep, i, st, src)
         if kind == "unsupported":
             self.fire("abort:unsupported")
             try:
@@ -1063,6 +1065,67 @@ class Session:
                 count(self.counts["rejected"], type(e).__name__)
                 return {"op": "abort", "outcome": "raised:" + type(e).__name__}
         return {"op": "abort", "outcome": "skipped"}
+
+    def abort_reuse(self, rep, i, st, src):
+        """A copy of the program in which one static function traces an address
+        twice must raise AddressReuse from simulate / propose / importance; the
+        session then carries on with the traces it holds."""
+        import copy
+        import random
+
+        r = random.Random(st["variant"])
+        node = copy.deepcopy(self.node)
+        statics = []
+
+        def walk(n):
+            if n["k"] == "static":
+                statics.append(n)
+            for c in ref.inner_nodes(n):
+                walk(c)
+
+        walk(node)
+        if st["kind"] == "reuse":
+            cands = [s for s in statics if len(s["stmts"]) >= 2]
+            if not cands:
+                return {"op": "abort", "outcome": "skipped:no-site"}
+            s = r.choice(cands)
+            a, b = r.sample(range(len(s["stmts"])), 2)
+            s["stmts"][b]["addr"] = list(s["stmts"][a]["addr"])
+            what = "address %s traced twice in one static function" % (s["stmts"][a]["addr"],)
+        else:
+            if not statics:
+                return {"op": "abort", "outcome": "skipped:no-site"}
+            s = r.choice(statics)
+            inner = {"k": "static", "ptypes": [], "stmts": [{"callee": {"k": "dist", "d": "normal"}, "args": [["c", 0.0], ["c", 1.0]], "addr": ["hx"]}], "ret": ["v", 0], "out": ["F", "real"]}
+            s["stmts"].append({"callee": inner, "args": [], "addr": ["hg"]})
+            s["stmts"].append({"callee": {"k": "dist", "d": "normal"}, "args": [["c", 0.0], ["c", 1.0]], "addr": ["hg", "hx"]})
+            what = "tuple address ('hg','hx') collides with address 'hx' traced inside the callee at 'hg'"
+        self.fire("abort:" + st["kind"])
+        try:
+            gf = build.build(node)
+            jargs = self.jargs(src.args, "py")
+            key = make_key(st["key"])
+            if st["api"] == "simulate":
+                fn = lambda k: gf.simulate(k, jargs)  # noqa: E731
+            elif st["api"] == "propose":
+                fn = lambda k: gf.propose(k, jargs)  # noqa: E731
+            else:
+                fn = lambda k: gf.importance(k, ChoiceMap.empty(), jargs)  # noqa: E731
+            if st["stage"] == "jit":
+                jax.jit(fn)(key)
+            else:
+                fn(key)
+            raised = None
+        except Exception as e:
+            raised = e
+        name = type(raised).__name__ if raised is not None else "none"
+        if raised is None:
+            self.viol("C22.reuse-not-raised", {"C22"}, i, rep, "%s: %s (%s) returned instead of raising AddressReuse" % (what, st["api"], st["stage"]))
+        elif name != "AddressReuse":
+            self.viol("C22.reuse-wrong-exception", {"C22"}, i, rep, "%s: %s (%s) raised %s: %s" % (what, st["api"], st["stage"], name, str(raised)[:200]), "crash")
+        else:
+            count(self.counts["rejected"], name)
+        return {"op": "abort", "outcome": "raised:" + name}
 
     def ref_missing_expected(self, src, dropped):
         """True if assess must raise MissingAddress, False if it must not,
